@@ -17,8 +17,8 @@ from ..monitors import LedgerScope
 
 MODULE = __name__
 
-CODE_STEMS = N.codes()
-NAME_STEMS = N.item_names()
+CODE_STEMS = N.codes()[:7] + N.codes()[-2:]
+NAME_STEMS = N.item_names()[:9] + N.item_names()[-2:]
 CATEGORIES = [None, None, '', 'cat', 'cat', 'Cat', 'other', 'é']
 
 
@@ -29,7 +29,7 @@ class History(Driver):
             return self.rng.choice(N.INVALID_CODES)
         if r < 0.12:
             return self.rng.choice(N.VALID_EDGE_CODES)
-        return self.rng.choice(self.rng.choice(CODE_STEMS[:7])[1])
+        return self.rng.choice(self.rng.choice(CODE_STEMS)[1])
 
     def rand_name(self, bad=0.08):
         r = self.rng.random()
@@ -37,7 +37,7 @@ class History(Driver):
             return self.rng.choice(N.INVALID_NAMES)
         if r < bad + 0.03:
             return self.rng.choice(N.VALID_EDGE_NAMES)
-        return self.rng.choice(self.rng.choice(NAME_STEMS[:9])[1])
+        return self.rng.choice(self.rng.choice(NAME_STEMS)[1])
 
     def rand_value(self):
         return G.rand_value(self.rng, depth=self.rng.choice([0, 0, 1, 2]), width=3, maxlen=8)
